@@ -311,6 +311,7 @@ def answer (line : String) : String :=
   | "conv3" => opConv3 c
   | "dftf" => opDftf c
   | "sep" => opSep c
+  | "scic" => opSep c
   | "sepnull" => opSepNull c
   | "sci" => opSci c
   | "gauss" => opGauss c
